@@ -7,6 +7,9 @@ from vmon import oracle as orc
 from vmon.checks import tokcommon as tc
 from vmon.checks.common import obs, fail
 
+SHUFFLE = "piece.tracks"    # worker: every seventh case is built by add_absolute_message in shuffled order
+CANONICAL_ABS = True   # the function under test pairs / merges over the canonically sorted list (oracle.abs_order)
+TRACK_CHANNELS = "piece"   # worker: every fourth case moves each track's notes to another channel
 PROP = "C01"
 MONITORS = ["tokenise"]
 ALSO = ("C02",)   # a token outside the vocabulary makes encode fail: observed here with its precise cause
